@@ -220,6 +220,8 @@ def _run_one(cc, func, it, ctx, config, res, tname):
             result = it.call(body, list(args), dict(kwargs))
         else:
             result = it.call_function(func, list(args), dict(kwargs))
+        if type(result).__name__ == "Coro":
+            result = it.run_coro(result)
     except PyRaise as pr:
         exc = pr.exc
     it.verifying = None
